@@ -174,6 +174,13 @@ def _audit_cases(quick, rng, sets):
             c = base(pol, std)
             for t in range(0, 10, 1 if not quick else 2):
                 yield dict(c, ops=[['pop', 9], ['pause', t], ['pop', 2], ['resume', t + 1]] + fin)
+        # ... and declared durations that differ BETWEEN the stimuli: a later trial has ended by t while an earlier one
+        # (long declared duration) still ends after t - the log is not ordered by end time
+        for mix in ((12, 0, 3), (0, 12, -1), (7, -1, 20)):
+            std = [dict(x, dur=max(0, x['len'] + mix[i % 3])) for i, x in enumerate(st)]
+            c = base(pol, std)
+            for t in range(1, 14, 2 if not quick else 4):
+                yield dict(c, ops=[['pop', 14], ['pause', t], ['pop', 2], ['resume', t + 1]] + fin)
         # trials set up with decrement=False are cancelled (notified) but there is nothing to restore
         P = [{'len': 3, 'trials': 2, 'kind': 'array', 'delays': 1}, {'len': 1, 'trials': 1, 'kind': 'gen', 'delays': 0}]
         c = base(pol, P)
